@@ -145,7 +145,8 @@ fn payload(len: u32, seed: u32) -> Vec<u8> {
 fn cell_head(col: u32, style: u32) -> Vec<u8> {
     let mut d = Vec::new();
     u32le(&mut d, col);
-    u32le(&mut d, style & 0x00FF_FFFF);
+    // low 24 bits iStyleRef, bit 24 fPhShow
+    u32le(&mut d, style & 0x01FF_FFFF);
     d
 }
 
@@ -474,6 +475,9 @@ pub fn parts(doc: &XlsbDoc) -> (Vec<(String, Vec<u8>)>, ZipKnobs) {
 // expected values
 
 pub fn xf_class(doc: &XlsbDoc, style: u32) -> u8 {
+    // the cell header holds a 24-bit style index; bit 24 is fPhShow (phonetic text shown), which
+    // generators may set: it does not take part in the style lookup
+    let style = style & 0x00FF_FFFF;
     match doc.styles.as_ref().and_then(|s| s.xfs.get(style as usize).map(|f| (s, *f))) {
         Some((s, ifmt)) => match crate::enc::xlsx::builtin_class(ifmt as u32) {
             0 => s.fmts.iter().find(|f| f.0 == ifmt).map_or(0, |f| f.2),
